@@ -2177,7 +2177,7 @@ def transform_points(
     count, dim = points.shape
 
     # quickly check to see if we've been passed an identity matrix
-    if np.abs(matrix - _IDENTITY[: dim + 1, : dim + 1]).max() < 1e-8:
+    if np.abs(matrix - _IDENTITY[: dim + 1, : dim + 1]).max() == 0.0:
         return np.ascontiguousarray(points.copy())
 
     if translate:
